@@ -57,7 +57,7 @@ func init() {
 			fmt.Sprint(r.Len()), hx(wb.Bytes())}
 	}
 	checkers["C10"] = checker{
-		rule: "descriptors built field by field (any timestamp incl. non-zero pad/nanosecond/timezone fields, certificate data 0..tier bound, any type GUID, any payload), the sbvarsign fixtures, and near-valid mutants (every truncation class, dwLength below/above the data, wrong revision, wrong certificate type); each is decoded by the implementation in a sandboxed worker through ReadEFIVariableAuthencation2, Unmarshal and ReadWinCertificate, and R_C10 (extracted) compares fields, bytes left in the reader and the re-encoding; non-trivial = the model decodes the input successfully; distinct by input hash",
+		rule: "descriptors built field by field (any timestamp incl. non-zero pad/nanosecond/timezone fields, certificate data 0..tier bound, any type GUID, any payload), the sbvarsign fixtures, and near-valid mutants (every truncation class, dwLength below/above the data, wrong revision, wrong certificate type), bare WIN_CERTIFICATEs of every certificate type and length residue mod 8 followed by a payload; each is decoded by the implementation in a sandboxed worker through ReadEFIVariableAuthencation2, Unmarshal and ReadWinCertificate, and R_C10 (extracted) compares fields, bytes left in the reader and the re-encoding; non-trivial = the model decodes the input successfully; distinct by input hash",
 		run:  runC10,
 	}
 }
@@ -160,6 +160,21 @@ func runC10(c *Ctx) {
 		wargs := []string{timeArg(t), fmt.Sprint(length), "512", "3825", guidArg(g), hx(data), hx(mb.Bytes())}
 		v, info := c.Drv.Eval("auth2_write", wargs...)
 		c.Rep.Record("auth2_write", "valid", true, "", wargs, v, info, nil)
+		// a bare WIN_CERTIFICATE of every certificate type and every length residue, followed by a payload
+		{
+			wl := rng.Intn(48)
+			ty := pick(rng, []uint16{0x0002, 0x0002, 0x0EF0, 0x0EF1, 0x0001, uint16(rng.Uint32())})
+			w := make([]byte, 8, 8+wl+32)
+			binary.LittleEndian.PutUint32(w, uint32(8+wl))
+			binary.LittleEndian.PutUint16(w[4:], 0x0200)
+			binary.LittleEndian.PutUint16(w[6:], ty)
+			w = append(append(w, randBytes(rng, wl)...), randBytes(rng, rng.Intn(32))...)
+			tn := "other"
+			if ty == 0x0002 || ty == 0x0EF0 || ty == 0x0EF1 || ty == 0x0001 {
+				tn = fmt.Sprintf("%#04x", ty)
+			}
+			evalWin(fmt.Sprintf("wincert/type=%s/len%%8=%d", tn, (8+wl)%8), w)
+		}
 		// near-valid mutants
 		switch rng.Intn(9) {
 		case 0: // truncated anywhere
